@@ -35,9 +35,10 @@ RULE += ' added since: legacy and wide source encodings (utf-16/32) on file path
 ASSUMPTIONS = ["mako-render is driven without --output-encoding (it crashes with that option, outside the statement)",
                "context values are strings so that the command line can pass them"]
 MIN_NONTRIVIAL = 100
+RULE += " Template.code compared with the text of the module file wherever one exists; CRLF templates with backslash-continued control lines."
 RULE += " defs printing the order of context.keys() for names assigned in the body, across hash seeds."
 RULE += " mako-render started inside the template directory (bare name, ./name, standard input, --template-dir .) for a template that inherits, includes and uses a namespace."
-REQUIRED_COUNTERS = ["templates", "paths_compared", "hash_seed_children", "cmdline_runs", "get_def_compared", "module_template_renders", "lookup_variants", "source_checks", "inheriting_get_def_compared", "preprocessor_paths_compared", "lookup_option_routes", "cmdline_directory_routes"]
+REQUIRED_COUNTERS = ["templates", "paths_compared", "hash_seed_children", "cmdline_runs", "get_def_compared", "module_template_renders", "lookup_variants", "source_checks", "inheriting_get_def_compared", "preprocessor_paths_compared", "lookup_option_routes", "cmdline_directory_routes", "code_compared_with_module_file"]
 SHARDS = {"quick": 16, "thorough": 32}
 
 _st = {}
@@ -116,6 +117,11 @@ def gen_defsonly(r):
 
 def gen_template(r):
     k = r.random()
+    if r.random() < 0.05:
+        # CRLF line ends and a control line continued with a backslash: the generated module then holds a raw CR
+        nl = "\r\n"
+        return "crlf-continued", ("top ${x}" + nl + "% if flag1 or \\" + nl + "    flag0:" + nl + "yes ${y}" + nl + "% endif" + nl + "% for i_ in (1, \\" + nl + " 2):" + nl
+                                  + "${i_}" + nl + "% endfor" + nl + "end"), []
     if k < 0.35:
         doc = c05.gen_doc(r, 3, allow_wrong=False)
         m = tdoc.Model(doc, {"x": "X", "y": "Y", "flag1": "1", "flag0": ""})
@@ -343,6 +349,20 @@ def run_template(kind, text, defs, d, res, items, enc="utf-8", input_encoding=No
             code = t.code
             if name != "string" and repr(fn) not in code:
                 res.violate("code-metadata", "path %s: Template.code lacks the template filename" % name, replay_case=rc)
+            mf = getattr(t.module, "__file__", None)
+            if mf and os.path.isfile(mf):
+                # a module file exists: Template.code is its text, character for character
+                res.count("code_compared_with_module_file")
+                with open(mf, "rb") as f_:
+                    raw = f_.read()
+                try:
+                    ftext = raw.decode(getattr(t.module, "_source_encoding", "utf-8") or "utf-8")
+                except Exception:
+                    ftext = None
+                if ftext is not None and code != ftext:
+                    at = next((i_ for i_, (a_, b_) in enumerate(zip(code, ftext)) if a_ != b_), min(len(code), len(ftext)))
+                    res.violate("code-differs-from-module-file", "path %s: Template.code differs from the text of its module file at offset %d: %r vs %r" % (
+                        name, at, code[max(0, at - 30):at + 30], ftext[max(0, at - 30):at + 30]), replay_case=rc)
             if "_template_uri = %r" % t.uri not in code:
                 res.violate("code-metadata", "path %s: Template.code lacks its uri %r" % (name, t.uri), replay_case=rc)
         except Exception as e:
